@@ -63,12 +63,16 @@ def md5(s):
 
 def run_real(decls, cons, backend="z3"):
     """declare, ensure (through the public API), find_answer; returns
-    (outcome, sols, trees) with outcome ("ok", bool) | ("err", name)."""
+    (outcome, sols, trees, solver) with outcome ("ok", bool) | ("err", name).  An exception
+    while building / posting a legitimate program is an error outcome as well."""
     from cspuz import Solver
     s = Solver()
-    vs = G.declare(s, decls)
-    built = [G.build(c, vs) for c in cons]
-    s.ensure(built)
+    try:
+        vs = G.declare(s, decls)
+        built = [G.build(c, vs) for c in cons]
+        s.ensure(built)
+    except Exception as ex:      # noqa
+        return ("err", norm_err(vlib.err_name(ex))), [None] * len(decls), list(s.constraints), s
     with warnings.catch_warnings():
         warnings.simplefilter("ignore")
         r = vlib.guarded(lambda: s.find_answer(backend=backend))
@@ -159,6 +163,47 @@ def gen_program(ctx, rng, maxenv=300, depth=(1, 4), ncons=(1, 3)):
     return decls, cons
 
 
+def exhaustive_small():
+    """every single-constraint program whose constraint has depth <= 1 over the vocabulary
+    {b0, b1, i2 in 0..1, i3 in -1..0, True, False, 0, 1}, plus every n-ary helper form on
+    operand lists of length <= 2."""
+    decls = ["b", "b", ("i", 0, 1), ("i", -1, 0)]
+    bl = [("BV", 0), ("BV", 1), ("L", True), ("L", False)]
+    il = [("IV", 2), ("IV", 3), ("L", 0), ("L", 1)]
+    out = []
+    for k in G.INT_CMP:
+        for a in il:
+            for b in il:
+                out.append((k, a, b))
+    for k in ("and", "or", "iff", "xor", "xor2", "then"):
+        for a in bl:
+            for b in bl:
+                out.append((k, a, b))
+    for a in bl:
+        out.append(("not", a))
+        out.append(("node", "B", "NOT", [a]))
+    lists_b = [[]] + [[a] for a in bl] + [[a, b] for a in bl for b in bl]
+    lists_i = [[]] + [[a] for a in il] + [[a, b] for a in il for b in il]
+    for l in lists_b:
+        out += [("fold_and", l), ("fold_or", l), ("node", "B", "AND", l), ("node", "B", "OR", l),
+                ("eq", ("count_true", l), ("IV", 2)), ("le", ("L", 1), ("count_true", l))]
+    for l in lists_i:
+        out.append(("alldiff", l))
+        if l:
+            out += [("eq", ("node", "I", "ADD", l), ("IV", 2)), ("lt", ("node", "I", "SUB", l), ("IV", 3))]
+    for c in bl:
+        for a in il[:3]:
+            for b in il[1:]:
+                out.append(("ge", ("cond", c, a, b), ("IV", 2)))
+    for a in il:
+        out.append(("gt", ("neg", a), ("IV", 3)))
+        out.append(("ne", ("node", "I", "NEG", [a]), ("L", 0)))
+        for b in il:
+            out.append(("le", ("add", a, b), ("IV", 2)))
+            out.append(("le", ("sub", a, b), ("IV", 3)))
+    return [(decls, [c]) for c in out]
+
+
 # ----------------------------------------------------------------- translator
 
 def translate(ctx):
@@ -214,7 +259,7 @@ def correspond(ctx):
     ctx._c01 = {"programs": [], "sessions": []}
 
     # (a) structural: _convert_expr vs conv
-    n_trees = 400 if not ctx.thorough else 20000
+    n_trees = 1200 if not ctx.thorough else 20000
     reqs, impl, labels = [], [], []
     for it in range(n_trees):
         decls = G.gen_decls(rng, 4, wide=True)
@@ -239,7 +284,7 @@ def correspond(ctx):
 
     # (a') helper constructors vs Core/Build.v
     reqs, impl, labels = [], [], []
-    for it in range(150 if not ctx.thorough else 3000):
+    for it in range(300 if not ctx.thorough else 3000):
         decls = G.gen_decls(rng, 4)
         s = Solver()
         vs = G.declare(s, decls)
@@ -257,10 +302,16 @@ def correspond(ctx):
         ctx.corr(kind, inp, parse_model_reply(o), io)
 
     # (b) behaviour: find_answer on enumerable programs
-    n_prog = 150 if not ctx.thorough else 5000
+    n_prog = 400 if not ctx.thorough else 5000
     if getattr(ctx, "deep", False):
         n_prog *= 3
     reqs, progs = [], []
+    for decls, cons in exhaustive_small():
+        ctx.count("exhaustive-small")
+        r, sols, trees, s = run_real(decls, cons)
+        st = G.state_tok(decls, [False] * len(decls), trees)
+        reqs.append("FIND " + st)
+        progs.append((decls, cons, r, sols, st, trees))
     for it in range(n_prog):
         decls, cons = gen_program(ctx, rng)
         r, sols, trees, s = run_real(decls, cons)
@@ -289,7 +340,7 @@ def correspond(ctx):
     ctx._c01["programs"] = [(p, ism.get(i)) for i, p in enumerate(progs)]
 
     # (c) sessions
-    n_sess = 30 if not ctx.thorough else 600
+    n_sess = 80 if not ctx.thorough else 600
     reqs, runs = [], []
     for it in range(n_sess):
         run = real_session(ctx, rng)
